@@ -89,7 +89,9 @@ class World:
 
     def snap_inst(self, m):
         s = json.dumps({'order': list(m.accessibles), 'acc': {n: self.snap_acc(a) for n, a in m.accessibles.items()},
-                        'props': m.exportProperties()}, sort_keys=True, default=repr)
+                        'props': m.exportProperties(),
+                        # behaviour of a controlled output: which inputs it switches off when control changes
+                        'inputs': sorted(getattr(m, 'inputCallbacks', None) or ())}, sort_keys=True, default=repr)
         return s.replace(m.name, '<name>')
 
     # ---------------------------------------------------------------- program pieces
